@@ -493,6 +493,11 @@ impl Store {
     pub fn insert_frame(&self, frame: &Frame) -> Result<(), crate::error::Error> {
         let encoded: Vec<u8> = serde_json::to_vec(&frame).unwrap();
 
+        // Refuse a frame that cannot be read back (e.g. meta nested deeper than the JSON
+        // parser's recursion limit): once stored, every read reaching it would panic.
+        serde_json::from_slice::<Frame>(&encoded)
+            .map_err(|e| format!("Frame does not survive its stored encoding: {}", e))?;
+
         // Get the index topic key
         let topic_key = idx_topic_key_from_frame(frame)?;
 
